@@ -37,14 +37,9 @@ const ID = "C12"
 
 // signatures of known findings (known_findings.json)
 const (
-	sigCarries      = "emulated-mul-carries-unchecked"
-	sigMulConstNeg  = "emulated-mulconst-negative"
-	sigMuxLimbs     = "emulated-mux-lookup2-limb-count"
-	sigInverseShort = "emulated-inverse-short-operand"
-	sigToBitsConst  = "emulated-tobits-constant-overflow"
-	sigSelectAlias  = "emulated-select-append-aliasing"
-	sigSumOverflow  = "emulated-sum-overflow-unchecked"
-	sigReduceConst  = "emulated-reduce-constant-panic"
+	sigCarries     = "emulated-mul-carries-unchecked"
+	sigSelectAlias = "emulated-select-append-aliasing"
+	sigToBitsConst = "emulated-tobits-constant-overflow"
 )
 
 func TestMain(m *testing.M) {
@@ -91,30 +86,13 @@ func knownSignature(c *Case, res *result, msg string) string {
 		mt, ok := res.pr.meta[x]
 		return mt, ok
 	}
-	// Field.reduce panics instead of handling an element whose limbs are all constants: the constant zero on zero
-	// limbs under ReduceStrict / ToBitsCanonical, or e.g. Sub(x, x) whose limbs the builder folds to the padding
-	if strings.Contains(msg, "trying to reduce a constant") {
-		return sigReduceConst
-	}
+	unsat := strings.Contains(msg, "assertIsEqual") || strings.Contains(msg, "is not satisfied")
 	for i, o := range c.Ops {
 		if res.st.skip[i] {
 			continue
 		}
 		a := res.st.opnds[i]
 		switch o.Op {
-		case "Inverse":
-			// InverseHint insists on NbLimbs input limbs: Inverse of a short element (constant, FromBits) fails
-			if mt, ok := meta(a[0]); ok && mt.NL < int(res.ps.N) && strings.Contains(msg, "inputs missing") {
-				return sigInverseShort
-			}
-		case "Sum":
-			// Sum never checks the overflow budget (Add does): with operands near the maximal overflow the limb
-			// sums wrap around the native field
-			if e := res.st.opElem[i]; e >= 0 {
-				if mt, ok := meta(e); ok && mt.OK && res.maxOf > 0 && mt.Of > res.maxOf {
-					return sigSumOverflow
-				}
-			}
 		case "ToBits", "BitsRoundTrip", "AssertIsLessOrEqual":
 			// ToBits of an element whose limbs are all constants returns NbLimbs*BitsPerLimb bits of the value and ignores
 			// the overflow: Sub(x, x) is folded by the builder to the (large) padding constant, whose bits are truncated
@@ -128,33 +106,13 @@ func knownSignature(c *Case, res *result, msg string) string {
 			}
 		case "Exp":
 			// Exp itself runs Select(bit, Mul(base, res), res): with a base on more than NbLimbs limbs this is the aliasing shape
-			if mt, ok := meta(a[0]); ok && mt.NL > int(res.ps.N) && (strings.Contains(msg, "assertIsEqual") || strings.Contains(msg, "is not satisfied")) {
+			if mt, ok := meta(a[0]); ok && mt.NL > int(res.ps.N) && unsat {
 				return sigSelectAlias
 			}
-		case "Select":
-			if aliasShape(c, res, i, meta) && (strings.Contains(msg, "assertIsEqual") || strings.Contains(msg, "is not satisfied")) {
+		case "Select", "Mux", "Lookup2":
+			if aliasShape(c, res, i, meta) && unsat {
 				return sigSelectAlias
 			}
-		case "Mux", "Lookup2":
-			if aliasShape(c, res, i, meta) && (strings.Contains(msg, "assertIsEqual") || strings.Contains(msg, "is not satisfied")) {
-				return sigSelectAlias
-			}
-			// the copy loop ranges over the first operand's limbs: with a shorter first operand the result has nil limbs
-			if first, ok := meta(a[0]); ok && strings.Contains(msg, "is nil") {
-				for _, x := range a[1:] {
-					if mt, ok := meta(x); ok && mt.NL > first.NL {
-						return sigMuxLimbs
-					}
-				}
-			}
-		}
-	}
-	// MulConst with a negative constant computes Neg(a)*|c| and then discards it (missing return): the limbs are
-	// multiplied by the negative constant, so anything downstream may break; any failure of a case containing one
-	// is attributed to it
-	for i, o := range c.Ops {
-		if !res.st.skip[i] && o.Op == "MulConst" && bigOf(o.K).Sign() < 0 {
-			return sigMulConstNeg
 		}
 	}
 	return ""
